@@ -1293,3 +1293,165 @@ mutant("c16-adapter-callback-under-lock", "C16", "C16-D3", "adapter/adapter_memo
 					callback(socket)
 					ids.Add(sid)
 				}""")
+
+# ---------------------------------------------------------------- C10
+mutant("c10-no-empty-check", "C10", "C10-D1", "parser/json/decode.go",
+       """	if len(data) < 1 {
+		err = errInvalidPacketSize
+		return
+	}
+
+	header = new(parser.PacketHeader)""",
+       """	header = new(parser.PacketHeader)""")
+mutant("c10-indexbyte-unchecked", "C10", "C10-D1", "parser/json/decode.go",
+       """		if i == -1 {
+			err = errMalformedPacket
+			return
+		}
+""", "")
+mutant("c10-attachments-bitsize64", "C10", "C10-D1", "parser/json/decode.go",
+       "strconv.ParseUint(string(data[:i]), 10, 31)", "strconv.ParseUint(string(data[:i]), 10, 64)")
+mutant("c10-negative-placeholder", "C10", "C10-D1", "parser/json/binary.go",
+       "			if num < 1 || num >= len(r.buffers) {", "			if num >= len(r.buffers) {")
+mutant("c10-negative-placeholder-map", "C10", "C10-D1", "parser/json/binary.go",
+       "						if n < 1 || n >= len(r.buffers) {", "						if n >= len(r.buffers) {", count=0)
+mutant("c10-placeholder-upper-off-by-one", "C10", "C10-D1", "parser/json/binary.go",
+       "			if num < 1 || num >= len(r.buffers) {", "			if num < 1 || num > len(r.buffers) {")
+mutant("c10-namespace-no-comma", "C10", "C10-D1", "parser/json/decode.go",
+       """		if i < len(data) {
+			// Skip the comma.
+			data = data[i+1:]
+		} else {
+			// Namespace is not terminated with a comma. There is no payload.
+			data = data[i:]
+		}""",
+       """		data = data[i+1:]""")
+mutant("c10-reconstruct-no-buffers-check", "C10", "C10-D1", "parser/json/binary.go",
+       """	if len(r.buffers) < 1 {
+		return nil, errInvalidNumberOfBuffers
+	}
+
+	payload := r.buffers[0]""",
+       """	payload := r.buffers[0]""")
+mutant("c10-onconnect-values-unchecked", "C10", "C10-D1", "client_socket.go",
+       """	} else if len(values) != 1 {
+		connectError(wrapInternalError(fmt.Errorf("len(values) != 1")))
+		return
+	}""",
+       """	}""")
+mutant("c10-arity-guard-weakened", "C10", "C10-D1", "server_socket.go",
+       """	if len(values) == len(handler.inputArgs) {
+		for i, v := range values {""",
+       """	if len(values) >= len(handler.inputArgs) {
+		for i, v := range values {""")
+mutant("c10-ack-arity-guard-removed", "C10", "C10-D2", "server_socket.go",
+       """	if len(values) == len(inputArgs) {
+		for i, v := range values {
+			if inputArgs[i].Kind() != reflect.Ptr && v.Kind() == reflect.Ptr {
+				values[i] = v.Elem()
+			}
+		}
+	} else {
+		s.onError(fmt.Errorf("sio: onEvent: invalid number of arguments"))
+		return
+	}
+""",
+       """	for i, v := range values {
+		if i < len(inputArgs) && inputArgs[i].Kind() != reflect.Ptr && v.Kind() == reflect.Ptr {
+			values[i] = v.Elem()
+		}
+	}
+""")
+mutant("c10-handler-no-recover", "C10", "C10-D2", "handler.go",
+       """func (f *eventHandler) call(args ...reflect.Value) (ret []reflect.Value, err error) {
+	defer func() {
+		if r := recover(); r != nil {
+			var ok bool
+			err, ok = r.(error)
+			if !ok {
+				err = fmt.Errorf("sio: handler error: %v", r)
+			}
+		}
+	}()
+""",
+       """func (f *eventHandler) call(args ...reflect.Value) (ret []reflect.Value, err error) {
+""")
+mutant("c10-server-parse-error-dropped", "C10", "C10-D3", "server_conn.go",
+       """			if err != nil {
+				c.onFatalError(wrapInternalError(err))
+				return
+			}
+		}
+	}
+}""",
+       """			if err != nil {
+				return
+			}
+		}
+	}
+}""")
+mutant("c10-client-parse-error-ignored", "C10", "C10-D3", "client_manager.go",
+       """			if err != nil {
+				go m.onClose(ReasonParseError, err)
+				return
+			}""",
+       """			if err != nil {
+				continue
+			}""")
+mutant("c10-client-parse-error-wrong-reason", "C10", "C10-D3", "client_manager.go",
+       "go m.onClose(ReasonParseError, err)", "go m.onClose(ReasonTransportError, err)")
+mutant("c10-decode-error-swallowed", "C10", "C10-D3", "server_socket.go",
+       """	values, err := decode(handler.inputArgs...)
+	if err != nil {
+		s.onError(wrapInternalError(err))
+		return
+	}""",
+       """	values, err := decode(handler.inputArgs...)
+	if err != nil {
+		return
+	}""")
+mutant("c10-decode-error-continues", "C10", "C10-D3", "client_socket.go",
+       """	values, err := decode(inputArgs...)
+	if err != nil {
+		s.onError(wrapInternalError(err))
+		return
+	}""",
+       """	values, err := decode(inputArgs...)
+	if err != nil {
+		s.onError(wrapInternalError(err))
+	}""")
+mutant("c10-finish-before-detach", "C10", "C10-D5", "parser/json/decode.go",
+       """	ok := p.r.addBuffer(data)
+	if ok {
+		r := p.r
+		p.r = nil
+		finish(r.header, r.eventName, r.decode)
+	}""",
+       """	ok := p.r.addBuffer(data)
+	if ok {
+		r := p.r
+		finish(r.header, r.eventName, r.decode)
+		p.r = nil
+	}""")
+mutant("c10-retain-zero-attachments", "C10", "C10-D5", "parser/json/decode.go",
+       "		ok := !header.IsBinary() || header.Attachments == 0", "		ok := !header.IsBinary()")
+mutant("c10-remaining-counts-up", "C10", "C10-D5", "parser/json/binary.go",
+       "	r.remaining--\n	return r.remaining == 0", "	r.remaining++\n	return r.remaining == 0")
+mutant("c10-checkackfunc-accepts-no-params", "C10", "C10-D6", "handler.go",
+       """		if rt.NumIn() == 0 {
+			return fmt.Errorf("sio: ack handler must have error as its 1st parameter")
+		}
+		if rt.In(0).Kind() != reflect.Interface || !rt.In(0).Implements(reflectError) {""",
+       """		if rt.NumIn() > 0 && (rt.In(0).Kind() != reflect.Interface || !rt.In(0).Implements(reflectError)) {""")
+mutant("c10-ackhandler-built-before-check", "C10", "C10-D6", "handler.go",
+       """	err := checkAckFunc(f, hasError)
+	if err != nil {
+		return nil, err
+	}
+
+	return &ackHandler{""",
+       """	if err := checkAckFunc(f, false); err != nil {
+		return nil, err
+	}
+
+	return &ackHandler{""")
